@@ -1,16 +1,15 @@
 (* Instances of GenericGreedy.generic_greedy (C03 + C02 for generic_with):
    - single / complete over any carrier with a strict weak order and a
      reflexive `==` that implies "not greater";
-   - single, complete, average, weighted, centroid, median in exact rational
-     arithmetic with the infinite sentinel (QInf.v).
-   Ward through `generic` is not covered here: its rename branch below `a`
-   needs the merged pair's dissimilarity to bound the two old cells, a premise
-   the hypothesis GenericGreedy.rename_reducible does not carry. *)
+   - all seven methods in exact rational arithmetic with the infinite sentinel
+     (QInf.v).  Ward's rename branch below `a` is reducible only because the
+     merged pair's dissimilarity bounds the two old cells - the popped pair
+     is a global minimum (threaded through GenericGreedy.gen_update_lb). *)
 Require Import KV.Model.Prelude KV.Model.Condensed KV.Model.Dendrogram KV.Model.Methods KV.Model.State KV.Model.Generic
   KV.Proofs.ShapeCheck KV.Proofs.RelabelWF KV.Proofs.PrimitiveGreedy KV.Proofs.PrimitiveWF KV.Proofs.UpdateSpec KV.Proofs.SortProofs KV.Proofs.LWInvariant
   KV.Proofs.Criteria KV.Proofs.CriteriaRun KV.Proofs.ChainInstances KV.Proofs.GenericInv KV.Proofs.GenericCriterion KV.Proofs.QInf
   KV.Proofs.GenericGreedy.
-From Coq Require Import QArith Qabs Permutation Lra.
+From Coq Require Import QArith Qabs Permutation Lqa.
 
 Set Implicit Arguments.
 Local Close Scope Q_scope.
@@ -61,7 +60,7 @@ Proof.
   - intros va vb md sa sb sx Ha Hb _. destruct Hm as [-> | ->]; cbn [kops_of k_upd k_ltb k_max] in *; cbn.
     + destruct (f_ltb F va vb); assumption.
     + destruct (f_ltb F vb va); assumption.
-  - intros _ va vb md sa sb sx _. destruct Hm as [-> | ->]; cbn [kops_of k_upd k_ltb]; cbn.
+  - intros _ va vb md sa sb sx _ _ _. destruct Hm as [-> | ->]; cbn [kops_of k_upd k_ltb]; cbn.
     + destruct (f_ltb F va vb); [left|right]; apply ltb_irrefl.
     + destruct (f_ltb F vb va); [left|right]; apply ltb_irrefl.
   - intros Ht va vb md sa sb sx. destruct Hm as [-> | ->]; [discriminate|]. cbn [kops_of k_upd k_ltb]; cbn.
@@ -99,16 +98,31 @@ Section QIGreedy.
 Variable p : profile.
 Variable rt : Q -> Q.
 Variable meth : method.
-Hypothesis not_ward : meth <> Ward.
 
 Notation KI := (kops_of (QI rt) meth).
 
+Lemma ward_reducible_any va vb md sa sb sx : (0 < sa)%nat -> (0 < sb)%nat ->
+  f_ltb QF va md = false -> f_ltb QF vb md = false ->
+  f_ltb QF (upd_of QF Ward va vb md sa sb sx) va = false \/ f_ltb QF (upd_of QF Ward va vb md sa sb sx) vb = false.
+Proof.
+  intros Ha Hb Hma Hmb. destruct sx as [|sx'].
+  - (* no third cluster size: the formula is the size-weighted mean *)
+    apply qltb_false_iff in Hma, Hmb. rewrite !qltb_false_iff. cbn. fold (qn sa) (qn sb). change (inject_Z 0) with 0%Q.
+    pose proof (qn_pos' Ha) as Pa. pose proof (qn_pos' Hb) as Pb.
+    assert (Pab : (0 < qn sa + qn sb + 0)%Q) by lra.
+    destruct (Qlt_le_dec vb va) as [Hlt|Hle].
+    + right. apply Qle_shift_div_l; [exact Pab|]. nra.
+    + left. apply Qle_shift_div_l; [exact Pab|]. nra.
+  - apply ward_reducible; try assumption. lia.
+Qed.
+
 Lemma KI_rename_reducible : below_kind_of meth = BelowRename ->
   forall va vb md sa sb sx, (uses_sizes_ab meth = true -> 0 < sa /\ 0 < sb) ->
+  k_ltb KI va md = false -> k_ltb KI vb md = false ->
   k_ltb KI (k_upd KI va vb md sa sb sx) va = false \/ k_ltb KI (k_upd KI va vb md sa sb sx) vb = false.
 Proof.
-  intros Hk va vb md sa sb sx Hs. cbn [kops_of k_ltb k_upd QI f_ltb].
-  destruct meth; try discriminate; try contradiction.
+  intros Hk va vb md sa sb sx Hs Hma Hmb. cbn [kops_of k_ltb k_upd QI f_ltb] in *.
+  destruct meth; try discriminate.
   - cbn. destruct (qi_ltb va vb); [left|right]; apply qi_irrefl.
   - cbn. destruct (qi_ltb vb va); [left|right]; apply qi_irrefl.
   - destruct va as [a|]; [|left; reflexivity]. destruct vb as [b|]; [|right; destruct a; reflexivity].
@@ -117,6 +131,9 @@ Proof.
   - destruct va as [a|]; [|left; reflexivity]. destruct vb as [b|]; [|right; reflexivity].
     change (upd_of (QI rt) Weighted (Some a) (Some b) md sa sb sx) with (Some (upd_of QF Weighted a b 0%Q sa sb sx)).
     cbn [qi_ltb]. apply weighted_reducible.
+  - destruct va as [a|]; [|left; reflexivity]. destruct vb as [b|]; [|right; reflexivity].
+    destruct md as [c|]; [|discriminate].
+    rewrite upd_QI. cbn [qi_ltb] in *. destruct (Hs eq_refl). apply ward_reducible_any; assumption.
 Qed.
 
 Lemma KI_untracked_grows : tracks_candidates meth = false ->
@@ -126,7 +143,7 @@ Proof.
   destruct (qi_ltb vb va) eqn:C; [exact (@qi_asym _ _ C)|apply qi_irrefl].
 Qed.
 
-(* every merge of `generic`, whatever the method (Ward excepted), is a global
+(* every merge of `generic`, whatever the method, is a global
    minimum of the closed-form criterion over all pairs of live clusters *)
 Theorem generic_QI_greedy s d (mq : list Q) (n : N) s' d' m' M0 :
   generic_with KI p meth s d (map Some mq) n = Ok (s', d', m') ->
